@@ -12,9 +12,10 @@ from .. import base, corpus, drivers, explore, layout, report, universe
 from . import common
 
 PROP = "C04"
-SIGMA = ["a", "1", "e", "x", "b", "#", "_", ".", '"', "'", "\\", " ", "\t", "-", "/", "*", "=", "<", ">", "?", ":", "(", ")", ";", "&", "|"]
-CORE = ["a", "1", "e", '"', "'", "\\", " ", "-", "/", "*", "=", "<", ">", "?", ":", "("]
-KB = tuple(k for k in layout.ALL_OPS if k not in ("UP", "LO", "CAP", "ALLUP", "ALLLO"))
+SIGMA = ["a", "1", "e", "x", "b", "#", "_", ".", '"', "'", "\\", " ", "\t", "-", "/", "*", "=", "<", ">", "?", ":", "(", ")", ";", "&", "|", ",", "+"]
+SIGMA_T = SIGMA + ["[", "]"]
+CORE = ["a", "1", "e", '"', "'", "\\", " ", "-", "/", "*", "=", "<", ">", "?", ":", "(", "x", ")", ",", ";"]
+KB = tuple(k for k in layout.ALL_OPS if k not in ("UP", "LO", "CAP", "UPI", "ALLUP", "ALLLO", "ALLJ"))
 
 
 # ---------------------------------------------------------------- A
@@ -55,16 +56,16 @@ def exec_tok(item):
 def tok_items(tier):
     out = []
     if tier == "quick":
-        # every string of length <= 4 over SIGMA: prefixes of length 2 (+ the shorter strings once)
-        out.append({"id": "tok/len<=1", "alpha": SIGMA, "prefix": "", "maxlen": 1})
-        for a in SIGMA:
-            for b in SIGMA:
-                out.append({"id": f"tok/{a + b!r}*", "alpha": SIGMA, "prefix": a + b, "maxlen": 4})
-    else:
+        # every string of length <= 5 over SIGMA: prefixes of length 2 (+ the shorter strings once)
         out.append({"id": "tok/len<=1", "alpha": SIGMA, "prefix": "", "maxlen": 1})
         for a in SIGMA:
             for b in SIGMA:
                 out.append({"id": f"tok/{a + b!r}*", "alpha": SIGMA, "prefix": a + b, "maxlen": 5})
+    else:
+        out.append({"id": "tok/len<=1", "alpha": SIGMA_T, "prefix": "", "maxlen": 1})
+        for a in SIGMA_T:
+            for b in SIGMA_T:
+                out.append({"id": f"tok/{a + b!r}*", "alpha": SIGMA_T, "prefix": a + b, "maxlen": 5})
         for a in CORE:
             for b in CORE:
                 out.append({"id": f"tok6/{a + b!r}*", "alpha": CORE, "prefix": a + b, "maxlen": 6, "exact": True})
@@ -163,18 +164,30 @@ def exec_clean(item):
             r.violations.append({"key": ("run_without_fix_touched_the_file", " ".join(extra)), "detail": {"leftovers": leftovers()}, "item": common.strip_item(item)})
             return r
     clean = exc is None and st == 0 and "Total Violations:    0" in so
-    if not clean:
+    nofix = False
+    if not clean and exc is None:
+        # "no fixable violations": everything the all-phases check still reports comes from rules that are marked unfixable,
+        # configured fixable: false, or carry a non-error severity
+        from vsg import severity as _sev
+
+        ex2 = drivers.d_pipe(dict(common.strip_item(item), lines=y, ops=[]), [], fix=False, extra_argv=["-ap"])
+        if ex2.outcome == "ok" and ex2.rl is not None:
+            rep = [q for q in ex2.rl.rules if q.violations]
+            nofix = bool(rep) and all((not q.fixable) or q.severity.type != _sev.error_type for q in rep)
+    if not clean and not nofix:
         r.extra["not_clean"] = 1
         return r
+    if nofix:
+        r.extra["only_unfixable"] = 1
     r.nontrivial = item["id"]
-    for extra in ([], ["--backup"], ["--force_fix"]):
+    for extra in ([], ["--backup"], ["--force_fix"]) if clean else ([], ["--backup"]):
         s0 = fresh()
         st, so, se, exc = drivers.d_main(["-f", path, "-p", "1", "--fix"] + style + extra)
         r.transitions += 1
         s1 = _stat(path)
         if s1 != s0:
             what = "content" if s1[3] != s0[3] else "inode" if s1[0] != s0[0] else "mtime" if s1[1] != s0[1] else "mode"
-            r.violations.append({"key": ("fix_on_clean_file_touched_the_file", what), "detail": {"args": extra}, "item": common.strip_item(item)})
+            r.violations.append({"key": ("fix_on_clean_file_touched_the_file" if clean else "fix_on_file_with_only_unfixable_violations_touched_the_file", what), "detail": {"args": extra}, "item": common.strip_item(item)})
             return r
         lo = [f for f in leftovers() if not (extra and f == "clean.vhd.bak")]
         if lo:
@@ -200,7 +213,7 @@ def main(tier):
     t0 = time.time()
     ta = tok_items(tier)
     seeds = corpus.seed_ids(("fix", "cls", "gen", "big"))
-    pb = universe.zero_dev(seeds, styles=(None,))
+    pb = universe.zero_dev(seeds, styles=(None,)) + universe.one_dev(seeds, ("ALLJ",))
     if tier == "quick":
         pb += universe.one_dev(corpus.small_slice(max_lines=25), KB)
     else:
@@ -215,14 +228,14 @@ def main(tier):
     strings = m1.extra.get("strings", 0)
     return report.finish(
         PROP, tier, "exploration", [m1, m2, m3], t0,
-        "A: every string over the 26-symbol alphabet " + "".join(SIGMA).replace("\t", "\\t") + " up to length " + ("4" if tier == "quick" else "5, plus every string of length 6 over the 16-symbol core")
+        "A: every string over the " + str(len(SIGMA if tier == "quick" else SIGMA_T)) + "-symbol alphabet " + "".join(SIGMA if tier == "quick" else SIGMA_T).replace("\t", "\\t") + " up to length 5" + ("" if tier == "quick" else ", plus every string of length 6 over the " + str(len(CORE)) + "-symbol core " + "".join(CORE))
         + " through tokens.create (join == input, no exception); B: every variant is written to a file and read with the product's reader (lines read == lines of the file, also with FF, VT, FS, GS, RS, NEL, LS, PS inside a comment), "
         "then vhdlFile(lines).get_lines() == lines, no unclassified token, one line-break token per line; "
-        "C: for y = fix_c(x) of every seed, plain and -ap runs never touch the file, and if y is violation-free --fix, --fix --backup and --fix --force_fix leave inode, mtime, mode and bytes unchanged; "
+        "C: for y = fix_c(x) of every seed, plain and -ap runs never touch the file, and if y is violation-free --fix, --fix --backup and --fix --force_fix leave inode, mtime, mode and bytes unchanged, as do --fix and --fix --backup if all that y still reports comes from unfixable / fixable:false / non-error rules; "
         "non-trivial = tokenizer prefix classes, accepted variants, clean files",
         ["the alphabet is chosen to reach every branch of the nine tokenizer passes; strings outside it are not explored", "clean = the all-phases report of y shows zero violations"],
         extra_cov={"strings_tokenized": strings, "variants_parsed": m2.evaluations, "files_for_clean_check": m3.evaluations, "clean_files": len(m3.nontrivial),
-                   "not_clean_after_fix": m3.extra.get("not_clean", 0)},
+                   "not_clean_after_fix": m3.extra.get("not_clean", 0), "files_with_only_unfixable_violations": m3.extra.get("only_unfixable", 0)},
         exhaustive=True,
         reproduce=reproduce,
         technique="exhaustive enumeration of all strings up to a length bound (tokenizer) and of all single layout deviations (parser), against the real code",
